@@ -100,7 +100,7 @@ theorem stepConn_li (c : Conn) (hinv : LI c) (hp : AllProp c) : StepLI (stepConn
   | handler r h =>
     have hprop : h.propagate = true := hp.2
     simp only [stepConn]
-    cases hhp : handlerPoll (1000 + env.tr.input.length * 4 + (env.segs.map (·.2.length)).sum * 4 + r.sp.cap * 4) r h env with
+    cases hhp : handlerPoll (1000 + env.tr.input.length * 4 + (env.segs.map (·.2.length)).sum * 4 + r.sp.cap * 4 + scriptCost h) r h env with
     | mk r' x =>
       obtain ⟨h', e', res⟩ := x
       obtain ⟨hpre, hpend, hok, hab⟩ := handlerPoll_hi _ _ _ _ hhp hprop hinv
